@@ -1178,6 +1178,52 @@ func runC07(r *Run) {
 		c.Op("mode operator", "ok")
 		c04Execute(c, r, p)
 	})
+	r.One(7, func(c *Case, _ *Rng) {
+		c.Desc = "corpus operator: a combined run fails, a task of the same hook arrives during the back-off and is merged by the retry, the retry fails as well (once by exit code, once by a handler panic after the hook run): the third attempt must receive every merged context"
+		c.Nontrivial = true
+		hooks := []c04Hook{
+			{Name: "hook01", Num: 1, Queue: 0, Bindings: []c04Binding{
+				{Name: "b1", Crontab: "1 0 1 1 *"}, {Name: "b2", Crontab: "2 0 1 1 *"}, {Name: "b3", Crontab: "3 0 1 1 *", Group: 1}}},
+			{Name: "hook02", Num: 2, Queue: 0, Bindings: []c04Binding{{Name: "b4", Crontab: "4 0 1 1 *"}}},
+		}
+		p := c04Plan{hooks: hooks, boInit: 400 * time.Millisecond, boStep: 5 * time.Millisecond, maxSteps: 40,
+			initial: map[int][]c04Ev{0: {{0, 0, false}, {0, 1, false}, {0, 2, false}, {1, 0, false}, {0, 0, false}, {0, 2, false}}}}
+		var fault *c07FaultStorage
+		p.onExec = func(w *c04World, qn, id int, pre, now []c04Snap, run *c04Running) {
+			if fault == nil {
+				fault = c07InstallFault(w)
+			}
+			c07OnExec(w, qn, id, pre, now, run)
+		}
+		gate := -1
+		p.outcome = func(id, failed int) string {
+			if gate < 0 {
+				gate = id
+				return "ok"
+			}
+			switch {
+			case failed == 0:
+				return "exit"
+			case failed == 1 && fault != nil && id%2 == 0:
+				fault.armed.Store(true)
+				c.Note("fault:handler-panic-after-the-hook-run(reported as a failed run, retried)")
+				return "okfault"
+			case failed == 1:
+				return "exit"
+			}
+			return "ok"
+		}
+		nbo := 0
+		p.boArrivals = func(qn, step int) []c04Ev {
+			nbo++
+			if nbo%2 == 1 && nbo <= 5 {
+				return []c04Ev{{0, (nbo / 2) % 3, false}} // a task of hook01 behind the waiting head (directly behind it in the first round)
+			}
+			return nil
+		}
+		c.Op("mode operator", "ok")
+		c04Execute(c, r, p)
+	})
 	r.Cases(600000, r.N(40, 300), 0, func(c *Case, rng *Rng) { c07Operator(c, rng, r) })
 	if r.Thorough() {
 		total := 0
